@@ -37,6 +37,12 @@ def gen_cases(tier, seed):
         for d in (lim - 2, lim - 1, lim, lim + 1, 2 * lim - 1, 2 * lim, 3 * lim):
             cases.append(asmgen.asm_case(feat, [(1, f"{m} far\n.blkw #{d}\nfar halt\n")])); tags.append("far-forward")
             cases.append(asmgen.asm_case(feat, [(1, f"far halt\n.blkw #{d}\n{m} far\n")])); tags.append("far-backward")
+    # the data directives at the extremes of their operands, in every spelling of the operand: the number of words a
+    # `.blkw` reserves is its operand read as an UNSIGNED 16-bit number; the word a `.fill` stores is the operand's pattern
+    for v in (0, 1, 2, 32767, 32768, 32769, 40000, 65534):
+        for sp in ("#%d" % v, "x%X" % v, "0x%x" % v, "%d" % v) + (("#-%d" % (65536 - v),) if v >= 32768 else ()):
+            cases.append(asmgen.asm_case(0, [(1, f".orig x0\na add r0 r0 #1\n.blkw {sp}\nb .fill xBEEF\n")])); tags.append("blkw-extreme")
+            cases.append(asmgen.asm_case(0, [(1, f".orig x0\n.fill {sp}\nhalt\n")])); tags.append("fill-extreme")
     for i in range(n):
         stack = rnd.random() < 0.3
         items = asmgen.gen_program(rnd, stack=stack)
